@@ -33,6 +33,8 @@ fn c18_scanner_transmit() {
     let fdl = any_fdl();
     let mut sc = any_scanner();
     let pre_cursor = sc.cursor;
+    let ts = fdl.parameters().address;
+    let succ = |a: u8| if a >= 125 { 0 } else { a + 1 };
     let pre_done = sc.current_address_done;
     let pre_words = sc.stations.data;
     let mut buf = [0u8; 12];
@@ -42,26 +44,31 @@ fn c18_scanner_transmit() {
     vassert!(sc.stations.data[0] == pre_words[0] && sc.stations.data[1] == pre_words[1], "C18/list: asking for a telegram never changes the list");
     if pre_done {
         vassert!(res.is_none(), "C18/sweep: after an address is done the application ends its turn");
-        vassert!(sc.cursor == if pre_cursor == 125 { 0 } else { pre_cursor + 1 }, "C18/sweep: the sweep advances by exactly one address, wrapping after 125");
+        vassert!(sc.cursor == succ(pre_cursor) || (succ(pre_cursor) == ts && sc.cursor == succ(ts)), "C18/sweep: the sweep advances to the next address, wrapping after 125 (only the scanning station's own address may be skipped)");
         vassert!(!sc.current_address_done, "C18/sweep: the next address is pending");
     } else {
         let r = res.unwrap();
+        // the probe goes to the cursor address; a cursor sitting on the scanning station's own
+        // address may move on by one first (nobody answers there, the property excludes it)
+        let probed = sc.cursor;
+        vassert!(probed == pre_cursor || (pre_cursor == ts && probed == succ(ts)), "C18/sweep: the probed address is the cursor address (only the scanning station's own address may be skipped)");
         let h = DataTelegramHeader {
-            da: pre_cursor,
-            sa: fdl.parameters().address,
+            da: probed,
+            sa: ts,
             dsap: Some(60),
             ssap: Some(62),
             fc: FunctionCode::Request { fcb: crate::fdl::FrameCountBit::First, req: crate::fdl::RequestType::SrdLow },
         };
         let mut expect = [0u8; 12];
         let elen = ref_encode(&h, 0, |_| 0, &mut expect);
-        vassert!(r.bytes_sent() == elen && r.expects_reply() == Some(pre_cursor), "C18/probe: a diagnostics request to the cursor address, expecting its reply");
+        vassert!(r.bytes_sent() == elen && r.expects_reply() == Some(probed), "C18/probe: a diagnostics request to the cursor address, expecting its reply");
         let mut i = 0;
         while i < elen {
             vassert!(buf[i] == expect[i], "C18/probe: the probe is a first-FCB diagnostics request (DSAP 60, SSAP 62) to the cursor address");
             i += 1;
         }
-        vassert!(sc.cursor == pre_cursor && !sc.current_address_done, "C18/sweep: the cursor stays until reply or time-out");
+        vassert!(probed <= 125, "C18/probe: only addresses 0..125 are probed");
+        vassert!(!sc.current_address_done, "C18/sweep: the cursor stays until reply or time-out");
         kani::cover!(true, "cover: probe sent");
     }
     vassert!(sc.cursor <= 125, "C18/probe: only addresses 0..125 are probed");
